@@ -37,17 +37,22 @@ def run(ctx):
     if ctx.spec:
         verdicts = ctx.spec.run_parallel([f"closecode {c}" for c in range(65536)])
         for c, v in enumerate(verdicts):
-            fr = ABNF(1, 0, 0, 0, ABNF.OPCODE_CLOSE, 0, c.to_bytes(2, "big"))
-            try:
-                fr.validate(False)
-                got = "ok"
-            except Exception as e:
-                got = exn_class(e)
-            T.case(("code", c), nontrivial=True, bucket="close-code")
-            if (v == "L" and got != "ok") or (v == "I" and got != "Protocol"):
-                T.fail("spec", {"fn": "close-code", "code": c}, {"L": "accepted", "I": "Protocol"}[v], got,
-                       {"site": "ABNF.validate", "cls": "close-code", "range": "legal" if v == "L" else "illegal"},
-                       what=f"close status {c}: RFC verdict {v}, validate() -> {got}")
+            stop = False
+            for skip in (False, True):        # switching UTF-8 validation off must not switch the status-code check off
+                fr = ABNF(1, 0, 0, 0, ABNF.OPCODE_CLOSE, 0, c.to_bytes(2, "big"))
+                try:
+                    fr.validate(skip)
+                    got = "ok"
+                except Exception as e:
+                    got = exn_class(e)
+                T.case(("code", c, skip), nontrivial=True, bucket="close-code")
+                if (v == "L" and got != "ok") or (v == "I" and got != "Protocol"):
+                    T.fail("spec", {"fn": "close-code", "code": c, "skip_utf8_validation": skip}, {"L": "accepted", "I": "Protocol"}[v], got,
+                           {"site": "ABNF.validate", "cls": "close-code", "range": "legal" if v == "L" else "illegal", "skip": skip},
+                           what=f"close status {c} (skip_utf8_validation={skip}): RFC verdict {v}, validate() -> {got}")
+                    stop = True
+                    break
+            if stop:
                 break
     # 2. single frames: every first byte x length class (x close bodies) through recv_frame
     cases = list(frame_cases(ctx.tier, rng))
